@@ -324,3 +324,17 @@ Qed.
 Lemma stdlib_escape_loses_cr :
   exists s, forallb is_xml_char s = true /\ text_value (sax_escape s) <> Some s.
 Proof. exists [97; 13; 98]. split; [reflexivity|]. vm_compute. discriminate. Qed.
+
+(* a namespace URI as the repaired native writer puts it between the double quotes of a
+   namespace declaration *)
+Lemma sax_escape_uri_flat u : sax_escape_uri u = flat_map esc3 u.
+Proof. unfold sax_escape_uri. fold (qa_data u). rewrite qa_data_flat. apply replace_quot_flat. Qed.
+
+Theorem uri_escape_value u :
+  forallb is_xml_char u = true -> attr_inner_value c_quot (sax_escape_uri u) = Some u.
+Proof.
+  intros Hx. rewrite sax_escape_uri_flat. unfold attr_inner_value.
+  rewrite (mem_flat_map_false c_quot esc3 u esc3_no_quot).
+  rewrite norm_eol_no_cr by (apply mem_flat_map_false, esc3_no_cr).
+  apply expand_esc3, Hx.
+Qed.
